@@ -274,3 +274,9 @@ def connection_changes_reach_every_task(reg, state):
     """connection_state_changed_cb(state), registry of any size: each task gets reconnected() exactly
     once when the state is CONNECTED and connection_lost() exactly once for every other state."""
     reg.connection_state_changed_cb(state)
+
+
+ASSUMPTIONS = [
+    "asyncio is trusted behind the contract stubs: a cancelled task/future does not continue, asyncio.timeout cancels what it guards, locks are mutually exclusive, queues are FIFO, tasks switch only at awaits; interleavings inside one await are represented by 'the awaited object completes with any admissible value, times out, or the connection closes'",
+    "'running' means: task handle created and not cancelled",
+]
